@@ -41,7 +41,7 @@ CHECKS["C18"] = dict(cat="model_checking", design="DESIGN.md section 4, C18",
     note=CODEC_NOTE, tech="TLA+ property-placement table; exhaustive cell enumeration by TLC; builder and parser answers judged by TLC")
 CHECKS["C01"] = dict(cat="model_checking", design="DESIGN.md section 4, C01",
     text="MC_Pair.tla composes two Endpoint.tla instances (client and server connection) with two FIFO channels, chunked delivery, application duties, transport loss at any point and persistent-session resumption; TLC checks the C01 clauses (Pair.tla: no error about the peer, delivery multiplicities per QoS, unchanged topic/payload, everything released at quiescence) and the per-endpoint predicates on every transition of several small slices. Every explored transition is replayed on two real objects exchanging the real bytes they request to send, together with seeded random workloads; TLC (Trace_Pair.tla) rebuilds the delivery counters and both endpoint ghosts from the log and evaluates the clauses at every node.",
-    note=EP_NOTE + " Termination: finite model state graph + step budget of the random driver.", tech="TLA+ two-endpoint composition + TLC model checking; transition-cover replay on two real objects exchanging real bytes; TLC trace validation")
+    note=EP_NOTE + " Termination: TLC checks the liveness property Terminates (<>[]Quiet) of MC_Pair under weak fairness; on the implementation every replayed schedule / random workload is run to quiescence within a step budget.", tech="TLA+ two-endpoint composition + TLC model checking (safety action property + liveness under fairness); transition-cover replay on two real objects exchanging real bytes, each run on to quiescence; TLC trace validation")
 for pid in ("C05", "C06", "C07", "C08", "C10", "C11", "C12", "C13", "C14", "C15", "C16", "C17", "C19"):
     CHECKS[pid] = dict(cat="model_checking", design="DESIGN.md section 4, %s" % pid, text=EP_TEXT, note=EP_NOTE, tech=EP_TECH)
 
